@@ -192,7 +192,12 @@ func New(data Map, query string, options ...QueryOption) (result *Query, err err
 	return q, nil
 }
 
-func Prepare(data Map, statement sqlparser.Statement, options *Options) (*Query, error) {
+func Prepare(data Map, statement sqlparser.Statement, options *Options) (result *Query, err error) {
+	defer func() {
+		if r := recover(); r != nil {
+			result, err = nil, RecoveredError(r)
+		}
+	}()
 	q := &Query{
 		offsetDefinition:    -1,
 		limitDefinition:     -1,
@@ -203,7 +208,7 @@ func Prepare(data Map, statement sqlparser.Statement, options *Options) (*Query,
 		options:             options,
 	}
 	q.data = data
-	err := Build(q, statement)
+	err = Build(q, statement)
 	if err != nil {
 		return nil, err
 	}
